@@ -987,9 +987,11 @@ Definition hexint_de (s : str) : dres :=
   | c :: t =>
       if ascii_eqb c "-"%char then
         if Nat.ltb (length s) 3 then Ok None
+        else if negb (is_hex (firstn 2 t)) then Ok None
         else match from_base16 (firstn 2 t) with Err e => Err e | Ok v => Ok (Some (3%nat, [VInt v])) end
       else if ascii_eqb c "+"%char then
         if Nat.ltb (length s) 4 then Ok None
+        else if negb (is_hex (firstn 3 t)) then Ok None
         else match from_base16 (firstn 3 t) with Err e => Err e | Ok v => Ok (Some (4%nat, [VInt v])) end
       else if is_hex [c] then
         match from_base16 [c] with Err e => Err e | Ok v => Ok (Some (1%nat, [VInt v])) end
@@ -1025,6 +1027,7 @@ Definition md_de (b : Z) (d : nat) (s : str) : dres :=
 (* Rooms._deserialize; the Tupl(Grid, Grid).deserialize is unfolded *)
 Definition rooms_de_raw (e : env) (allow : bool) (s : str) : dres :=
   let h := height e in let w := width e in
+  if (h <=? 0) || (w <=? 0) then Err ValueError else   (* a board without cells has no rooms *)
   match grid_de (md_de 2 5) e (Some (h, w - 1)) s with
   | Err e' => Err e'
   | Ok None => Err ValueError                          (* border data could not be deserialized *)
@@ -1236,7 +1239,7 @@ Inductive allowed := AllowAny | AllowOne (p : str) | AllowList (l : list str).
 Definition deserialize_problem_as_url (c : comb) (url : str) (al : allowed)
            (allow_failure return_size : bool) : res (option pv) :=
   match url_match url with
-  | None => if allow_failure then Ok None else Err AssertionError
+  | None => if allow_failure then Ok None else Err ValueError
   | Some (puzzle, wd, hd, body) =>
       match py_int wd 10 with
       | Err e => Err e
@@ -1253,6 +1256,7 @@ Definition deserialize_problem_as_url (c : comb) (url : str) (al : allowed)
           match deserialize_problem c body h w with
           | Err e => Err e
           | Ok None => Ok None
+          | Ok (Some VNone) => Ok None                 (* `if problem is None: return None` *)
           | Ok (Some p) => Ok (Some (if return_size then VTup [VInt h; VInt w; p] else p))
           end
       end end
